@@ -253,6 +253,8 @@ static cJSON_bool decode_index(const unsigned char * const pointer, size_t * con
 static cJSON *get_item_from_pointer(cJSON * const object, const char * pointer, const cJSON_bool case_sensitive) { (void)pointer; (void)case_sensitive; return object ? object->child : NULL; }
 static cJSON *detach_path(cJSON *object, const unsigned char *path, const cJSON_bool case_sensitive) { (void)path; (void)case_sensitive; return object ? object->child : NULL; }
 cJSON *bad_TAB18_narrow(cJSON *array, const unsigned char *p) { size_t index = 0; if (!decode_index(p, &index)) { return NULL; } return cJSON_GetArrayItem(array, (int)index); }
+cJSON *good_narrow_guarded(cJSON *array, const unsigned char *p) { size_t index = 0; if (!decode_index(p, &index)) { return NULL; } if (index > (size_t)2147483647) { return NULL; } return cJSON_GetArrayItem(array, (int)index); }
+cJSON *bad_TAB18_guard_too_wide(cJSON *array, const unsigned char *p) { size_t index = 0; if (!decode_index(p, &index)) { return NULL; } if (index > (size_t)4294967295u) { return NULL; } return cJSON_GetArrayItem(array, (int)index); }
 cJSON *good_wide(cJSON *array, const unsigned char *p) { size_t index = 0; cJSON *c = array->child; if (!decode_index(p, &index)) { return NULL; } while ((c != NULL) && (index > 0)) { index--; c = c->next; } return c; }
 int bad_ORD1_stale(cJSON *object, const char *to, const unsigned char *from)
 {
